@@ -272,8 +272,10 @@ def _r2(ctx):
     spec = [("N", False, False), ("H", False, False), ("C", False, False), ("O", False, False),      # backbone N-H, C=O
             ("O", False, True), ("H", False, True), ("N", False, True), ("H", False, True),          # side-chain O-H (listed H first), N-H
             ("O", True, False), ("H", True, False), ("H", True, False),                              # water, one bond listed H first
-            ("S", False, True), ("H", False, True)]                                                  # thiol: not a donor
-    bond_ids = [(0, 1), (2, 3), (5, 4), (6, 7), (8, 9), (10, 8), (11, 12), (0, 2)]
+            ("S", False, True), ("H", False, True),                                                  # thiol: not a donor
+            ("N", False, False), ("H", False, True),                                                 # backbone N of a protonated terminus: its H1 / H2 / H3 count as side chain
+            ("O", False, True), ("H", False, False)]                                                 # the other way round: the heavy atom takes part, the hydrogen does not
+    bond_ids = [(0, 1), (2, 3), (5, 4), (6, 7), (8, 9), (10, 8), (11, 12), (0, 2), (13, 14), (16, 15)]
 
     def world(bonds=bond_ids, only=None):
         atoms = [Obj(tag="%s%d" % (e, i), index=i, element=Obj(symbol=e), residue=Obj(is_water=w), is_sidechain=sc) for i, (e, w, sc) in enumerate(spec)]
